@@ -162,3 +162,20 @@ func (e EnumSchema[S, T]) asType(d any) (S, T, error) {
 	unserializedData := dValue.Convert(unserializedType).Interface().(T)
 	return serializedData, unserializedData, nil
 }
+
+// withDisplayValues returns a copy of the valid values in which missing (nil) display values are replaced by empty
+// ones. A nil display value cannot be described by the schema's self-serialization, which would make an enum
+// that simply has no display data unusable in a plugin.
+func withDisplayValues[T enumValue](validValues map[T]*DisplayValue) map[T]*DisplayValue {
+	if validValues == nil {
+		return nil
+	}
+	result := make(map[T]*DisplayValue, len(validValues))
+	for value, display := range validValues {
+		if display == nil {
+			display = &DisplayValue{}
+		}
+		result[value] = display
+	}
+	return result
+}
